@@ -25,7 +25,6 @@ import (
 	"runtime"
 	"slices"
 	"strings"
-	"sync"
 	"time"
 	"unsafe"
 
@@ -473,30 +472,18 @@ func (server *SugarDB) updateKeysInCache(ctx context.Context, keys []string) (in
 		}
 	}
 
-	wg := sync.WaitGroup{}
-	errChan := make(chan error)
-	doneChan := make(chan struct{})
-
+	// Bring the memory usage back under the limit. The databases are handled one after the other, under
+	// the store lock held above, and eviction stops as soon as the usage is under the limit again: evicting
+	// from all the databases at the same time removed more keys than necessary and raced on the usage counter.
 	for db, _ := range server.store {
-		wg.Add(1)
-		ctx := context.WithValue(ctx, "Database", db)
-		go func(ctx context.Context, database int, wg *sync.WaitGroup, errChan *chan error) {
-			if err := server.adjustMemoryUsage(ctx); err != nil {
-				*errChan <- fmt.Errorf("adjustMemoryUsage database %d, error: %v", database, err)
-			}
-			wg.Done()
-		}(ctx, db, &wg, &errChan)
-	}
-
-	go func() {
-		wg.Wait()
-		doneChan <- struct{}{}
-	}()
-
-	select {
-	case err := <-errChan:
-		return touchCounter, fmt.Errorf("adjustMemoryUsage error: %+v", err)
-	case <-doneChan:
+		if uint64(server.memUsed) < server.config.MaxMemory {
+			break
+		}
+		dbCtx := context.WithValue(ctx, "Database", db)
+		if err := server.adjustMemoryUsage(dbCtx); err != nil {
+			// Nothing (more) to evict in this database, try the next one.
+			log.Printf("adjustMemoryUsage database %d: %v\n", db, err)
+		}
 	}
 
 	return touchCounter, nil
@@ -535,6 +522,10 @@ func (server *SugarDB) adjustMemoryUsage(ctx context.Context) error {
 		server.lfuCache.cache[database].Mutex.Lock()
 		defer server.lfuCache.cache[database].Mutex.Unlock()
 		for {
+			// Return as soon as we're below max memory
+			if uint64(server.memUsed) < server.config.MaxMemory {
+				return nil
+			}
 			// Return if cache is empty
 			if server.lfuCache.cache[database].Len() == 0 {
 				return fmt.Errorf("adjustMemoryUsage -> LFU cache empty")
@@ -569,6 +560,10 @@ func (server *SugarDB) adjustMemoryUsage(ctx context.Context) error {
 		server.lruCache.cache[database].Mutex.Lock()
 		defer server.lruCache.cache[database].Mutex.Unlock()
 		for {
+			// Return as soon as we're below max memory
+			if uint64(server.memUsed) < server.config.MaxMemory {
+				return nil
+			}
 			// Return if cache is empty
 			if server.lruCache.cache[database].Len() == 0 {
 				return fmt.Errorf("adjustMemoryUsage -> LRU cache empty")
@@ -599,52 +594,57 @@ func (server *SugarDB) adjustMemoryUsage(ctx context.Context) error {
 		}
 	case slices.Contains([]string{constants.AllKeysRandom}, strings.ToLower(server.config.EvictionPolicy)):
 		// Remove random keys until we're below the max memory limit
-		// or there are no more keys remaining.
+		// or there are no more keys remaining in this database.
 		for {
-			// If there are no keys, return error
-			if len(server.store) == 0 {
+			// Return as soon as we're below max memory
+			if uint64(server.memUsed) < server.config.MaxMemory {
+				return nil
+			}
+			// If there are no keys in this database, return error
+			if len(server.store[database]) == 0 {
 				err := errors.New("no keys to evict")
 				return fmt.Errorf("adjustMemoryUsage -> all keys random: %+v", err)
 			}
 			// Get random key in the database
-			idx := rand.Intn(len(server.store))
-			for db, data := range server.store {
-				if db == database {
-					for key, _ := range data {
-						if idx == 0 {
-							verifhook.Event("evict.mem", server.config.EvictionPolicy, database, key, server.memUsed, server.config.MaxMemory, server.store[database][key].ExpireAt)
-							if !server.isInCluster() {
-								// If in standalone mode, directly delete the key
-								if err := server.deleteKey(ctx, key); err != nil {
-									log.Printf("Evicting key %v from database %v \n", key, db)
-
-									return fmt.Errorf("adjustMemoryUsage -> all keys random: %+v", err)
-								}
-							} else if server.isInCluster() && server.raft.IsRaftLeader() {
-								if err := server.raftApplyDeleteKey(ctx, key); err != nil {
-
-									return fmt.Errorf("adjustMemoryUsage -> all keys random: %+v", err)
-								}
-							}
-							// Run garbage collection
-							runtime.GC()
-							// Return if we're below max memory
-							if uint64(server.memUsed) < server.config.MaxMemory {
-								return nil
-							}
-						}
-						idx--
-					}
+			idx := rand.Intn(len(server.store[database]))
+			var key string
+			for k, _ := range server.store[database] {
+				if idx == 0 {
+					key = k
+					break
+				}
+				idx--
+			}
+			verifhook.Event("evict.mem", server.config.EvictionPolicy, database, key, server.memUsed, server.config.MaxMemory, server.store[database][key].ExpireAt)
+			if !server.isInCluster() {
+				// If in standalone mode, directly delete the key
+				if err := server.deleteKey(ctx, key); err != nil {
+					log.Printf("Evicting key %v from database %v \n", key, database)
+					return fmt.Errorf("adjustMemoryUsage -> all keys random: %+v", err)
+				}
+			} else if server.isInCluster() && server.raft.IsRaftLeader() {
+				if err := server.raftApplyDeleteKey(ctx, key); err != nil {
+					return fmt.Errorf("adjustMemoryUsage -> all keys random: %+v", err)
 				}
 			}
+			// Run garbage collection
+			runtime.GC()
 		}
 	case slices.Contains([]string{constants.VolatileRandom}, strings.ToLower(server.config.EvictionPolicy)):
 		// Remove random keys with an associated expiry time until we're below the max memory limit
 		// or there are no more keys with expiry time.
 		for {
-			// Get random volatile key
+			// Return as soon as we're below max memory
+			if uint64(server.memUsed) < server.config.MaxMemory {
+				return nil
+			}
+			// Get random volatile key of this database
 			server.keysWithExpiry.rwMutex.RLock()
-			idx := rand.Intn(len(server.keysWithExpiry.keys))
+			if len(server.keysWithExpiry.keys[database]) == 0 {
+				server.keysWithExpiry.rwMutex.RUnlock()
+				return fmt.Errorf("adjustMemoryUsage -> volatile keys random: no volatile keys to evict")
+			}
+			idx := rand.Intn(len(server.keysWithExpiry.keys[database]))
 			key := server.keysWithExpiry.keys[database][idx]
 			server.keysWithExpiry.rwMutex.RUnlock()
 
